@@ -304,6 +304,28 @@ func ruleExportEsc(r *Run) {
 			}
 		}
 	}
+	// …or the appending form: func(dst *strings.Builder, run *document.Run) — what it produces is
+	// what it writes into dst
+	appending := false
+	if fmtFn == nil {
+		for _, fn := range p.ModFuncs() {
+			if fn.Pkg == nil || fn.Pkg.Pkg.Path() != pkgMd || fn.Parent() != nil || fn.Signature.Results().Len() != 0 {
+				continue
+			}
+			hasRun, hasDst := false, false
+			for _, par := range fn.Params {
+				if typeIs(par.Type(), pkgDoc, "Run") {
+					hasRun = true
+				}
+				if typeIs(par.Type(), "strings", "Builder") || typeIs(par.Type(), "bytes", "Buffer") {
+					hasDst = true
+				}
+			}
+			if hasRun && hasDst {
+				fmtFn, appending = fn, true
+			}
+		}
+	}
 	if fmtFn == nil {
 		r.Unresolved("markdown function (run *document.Run) string")
 		return
@@ -311,7 +333,39 @@ func ruleExportEsc(r *Run) {
 	// (1) exactly-once emission: every return is "" or depends on Text.Content
 	sl := newSlicer(p)
 	okOnce := true
+	if appending {
+		// the run's text is written, and exactly one write carries it
+		var writes []*ssa.Call
+		dsl := newSlicer(p)
+		dsl.dataOnly = true
+		allInstrs(fmtFn, func(in ssa.Instruction) {
+			c, ok := in.(*ssa.Call)
+			if !ok || len(c.Call.Args) < 2 {
+				return
+			}
+			switch calleeName(c) {
+			case "(*strings.Builder).WriteString", "(*bytes.Buffer).WriteString", "(*strings.Builder).Write", "(*bytes.Buffer).Write":
+				if dsl.Slice(c.Call.Args[1]).readsField(p, pkgDoc, "Text", "Content") {
+					writes = append(writes, c)
+				}
+			}
+		})
+		okOnce = len(writes) >= 1
+		for _, a := range writes {
+			for _, b := range writes {
+				if a == b {
+					continue
+				}
+				if a.Block() == b.Block() || reachableBlocks(a.Block(), nil)[b.Block()] && a.Block() != b.Block() {
+					okOnce = false // two writes of the text on one path
+				}
+			}
+		}
+	}
 	for _, ret := range returnsOf(fmtFn) {
+		if appending {
+			break
+		}
 		v := retResult(ret, 0)
 		if s, ok := constString(v); ok && s == "" {
 			continue
@@ -320,7 +374,7 @@ func ruleExportEsc(r *Run) {
 			okOnce = false
 		}
 	}
-	r.Check("export-text", shortName(fmtFn), fmtFn.Pos(), okOnce, "every non-empty result of the run formatter contains the run's text")
+	r.Check("export-text", "run-formatter", fmtFn.Pos(), okOnce, "every non-empty result of the run formatter contains the run's text")
 	// (2) escaping: the text passes through a Markdown escaper before markers are added
 	escaped := false
 	for f := range p.staticReach(fmtFn) {
@@ -345,7 +399,7 @@ func ruleExportEsc(r *Run) {
 			}
 		})
 	}
-	r.Check("export-esc", shortName(fmtFn), fmtFn.Pos(), escaped,
+	r.Check("export-esc", "run-formatter", fmtFn.Pos(), escaped,
 		"run text is wrapped in Markdown markers without escaping its own metacharacters (* _ ` | \\): text such as 2*3*4 or snake_case_name changes meaning when the Markdown is converted back, so export→import is not the identity")
 }
 
